@@ -117,6 +117,9 @@ def rq_text(e, colmap):
         m = re.fullmatch(r"Float\((.*)\)", o)
         if m:
             return "f" + m.group(1)
+        m = re.fullmatch(r'(Date|Time|Timestamp)\("([^"\\\']*)"\)', o)
+        if m:
+            return "t%d'%s'" % (("Date", "Time", "Timestamp").index(m.group(1)), m.group(2))
         m = re.fullmatch(r'String\("([^"\\\']*)"\)', o)
         if m:
             return "s'" + m.group(1) + "'"
